@@ -29,8 +29,8 @@ CHECKS = {
     note="Trusted: as C10. Excluded: timing members (accumulate by design). Not decided: equality of floating-point results between a reused and a fresh object beyond 'same term'.",
     ref="DESIGN.md section 4 / C13"),
  "C20": dict(
-    level="other", technique="static analysis: definedness (definite-assignment) analysis of setup()+solve()+accessors per option mode; structural option-table rules",
-    text="Decides the driver-level part: for the cross product of extrapolation, FMG, enabled/disabled tolerances, exact solution present or not, 0..2 iterations, verbose and paraview, with every stop-test outcome explored, no path of setup()+solve()+statistics accessors reads an unassigned scalar, accesses an empty list, dereferences a null input function, unwraps a disabled tolerance or uses a vector/operator setup() did not allocate/initialise in that mode. Option tables and mandated rejections are structural rules over the parser (added as they are built).",
+    level="other", technique="static analysis: definedness and value-flow analysis (scalar terms) of setup()+solve()+accessors per option mode against statistic oracles; structural option-table rules",
+    text="Decides the driver-level part: for the cross product of extrapolation, FMG, enabled/disabled tolerances, exact solution present or not, 0..2 iterations, verbose and paraview, with every stop-test outcome explored, no path of setup()+solve()+statistics accessors reads an unassigned scalar, accesses an empty list, dereferences a null input function, unwraps a disabled tolerance or uses a vector/operator setup() did not allocate/initialise in that mode, and no statistic is a quotient by a placeholder zero. On every such path the four statistics accessors equal their defining term: iteration count == cycles applied, reduction factor == (last/first residual norm of this solve)^(1/k), error figures == weighted-l2/max norm of the error of the iterate the last stop test examined, absent when nothing was measured. Option tables (parser validity test == enumerators, throwing defaults) and mandated rejections (take without caches, level minimum) are structural rules.",
     note="Trusted: as C10; NDEBUG build as shipped. Not decided: memory safety of the numerical kernels for all inputs (C18 covers grid generation, C11 the parallel regions on representative shapes), debug-build assertions.",
     ref="DESIGN.md section 4 / C20"),
  "C14": dict(
